@@ -98,3 +98,20 @@ PROPS['C13'] = dict(
     min_stats={'cases': 600},
     assumptions=['the expected filter verdict is the verdict of the same filter function applied by the harness to the handler\'s own error value'],
 )
+
+PROPS['C19'] = dict(
+    level='model_checking',
+    design=[D('MCMiddlewareAlgebra', 'MCMiddlewareAlgebra.cfg'),
+            D('MCMiddlewareAlgebra', 'MCMiddlewareAlgebra_3.cfg', tier='thorough', timeout=1800),
+            D('MCMiddlewareAlgebra', 'MCMiddlewareAlgebra_mut_legacytimeout.cfg', expect='fail', violates='EffectEndsWithCall')],
+    traces={'MiddlewareAlgebraTrace': dict(module='MiddlewareAlgebraTrace', cfg='MiddlewareAlgebraTrace.cfg'),
+            'ThrottleTrace': dict(module='ThrottleTrace', cfg='ThrottleTrace.cfg')},
+    rule='runs = every chain of 0..2 of {Timeout, CorrelationID, Recoverer, IgnoreErrors, InstantAck, Throttle, closed CircuitBreaker, DelayOnError, Retry} (all 3-chains '
+         'in the thorough tier, a sample in quick) x 13 handler result scripts (outputs with/without correlation id, errors incl. wrapped, panics with value/error/nil, '
+         'fail-then-succeed sequences) x 1..3 consecutive calls on the same message x 5 DelayOnError configurations with fractional multipliers, plus Throttle timing '
+         'runs; distinct = distinct (chain, script, calls); non-trivial = chain is not empty',
+    exhaustive=False,
+    min_stats={'algebra_cases': 1000, 'throttle_runs': 5},
+    assumptions=['Throttle: only the lower bound "k+2 consecutive starts span >= k periods" (minus 10 ms slack) is asserted',
+                 'panic(nil) surfaces as *runtime.PanicNilError'],
+)
